@@ -210,6 +210,8 @@ def shards(tier, seed):
                     sh.append(("lists", pers, conn, op, part))
                 sh.append(("straddle", pers, conn, op, 0))
                 sh.append(("refusals", pers, conn, op, 0))
+    sh += [("wide", pers, 4000, op, 0) for pers in ("v20", "v32") for op in ("read", "write")]
+    sh += [("packed", pers, conn, "both", 0) for pers in ("v20", "v32") for conn in CONNS]
     sh += [("lists", "v20", 500, "read", 1, "debuglog"), ("lists", "v32", 4000, "write", 2, "debuglog"), ("refusals", "m800", 500, "write", 0, "debuglog")]
     return sh
 
@@ -296,9 +298,66 @@ def prepare(proj, ctl, d, op):
     return {"alpha": alpha, "want": want, "res": res}
 
 
+def wide_shard(rep, pers, op):
+    """One call whose single Multiple Service Packet carries more than 255 services (short names, small values, 4000-byte connection)."""
+    import pycomm3
+    from vmc.ref import enip, net, logix, projgen
+
+    proj = projgen.Project("P6w")
+    names = [a + b for a in "abcdefghijklmnop" for b in "abcdefghijklmnopqrstuvwxyz"][:400]
+    for i, nm in enumerate(names):
+        proj.tag(nm, "SINT", instance_id=10 + i)
+    fill_image(proj, 1)
+    ctl = logix.LogixController(proj, pers)
+    t = enip.Target(ctl, enip.Policy(), keep_cip=True)
+    with net.World(t, io_budget=10**8):
+        d = pycomm3.LogixDriver("10.0.0.1")
+        o = call(d.open)
+        for n in (255, 256, 257, 300, 340):
+            sel = names[:n]
+            t.cip_log.clear()
+            pre = proj.snapshot()
+            out = call(d.read, *sel) if op == "read" else call(d.write, *[(x, (i % 100) + 1) for i, x in enumerate(sel)])
+            packets = sum(1 for e in t.cip_log if e["service"] == 0x0A)
+            probs = []
+            if out[0] != "ok" or not isinstance(out[1], list) or len(out[1]) != n:
+                probs.append(("shape", f"{str(out)[:100]}"))
+            else:
+                bad = [(i, g) for i, g in enumerate(out[1]) if not g or g.tag != sel[i] or (op == "read" and g.value != Q.read_expect(proj, sel[i])[1])]
+                if bad:
+                    probs.append(("verdict", f"{len(bad)} of {n} results wrong, first #{bad[0][0]} {sel[bad[0][0]]!r}: {bad[0][1]!r:.80}"))
+                if op == "write":
+                    wrong = [x for i, x in enumerate(sel) if proj.find(x).data[0] != (i % 100) + 1]
+                    if wrong:
+                        probs.append(("memory", f"{len(wrong)} of {n} tags do not hold the written value, first {wrong[0]!r}"))
+            proj.restore(pre)
+            rep.case(("wide", pers, op, n), outcome=f"ok:{packets}-packets" if not probs else probs[0][0])
+            for clause, detail in probs[:2]:
+                rep.violation(f"{op}/wide-packet/{clause}", f"{pers}: {op} of {n} one-byte tags in one call ({packets} multi-service packet(s), open {o!r:.30}): {detail}",
+                              {"cfg": ["P6w", pers, 4000], "op": op, "list": [], "kind": "wide"})
+        call(d.close)
+    rep.sample({"wide_packet": pers, "op": op, "services_in_one_call": [255, 256, 257, 300, 340]})
+
+
 def run_shard(shard, tier, seed):
     rep = Report()
     kind, pers, conn, op, part = shard
+    if kind == "wide":
+        wide_shard(rep, pers, op)
+        return rep
+    if kind == "packed":
+        # request lists whose packed size hits every value around the connection size (C04's generator), judged for isolation:
+        # a packet that should have been split must not take its valid neighbours down with it
+        from . import c04
+
+        sub = c04.run_shard(("mixed", conn, pers), tier, seed)
+        rep.evaluations, rep.transitions, rep.cases, rep.nontrivial, rep.outcomes = sub.evaluations, sub.transitions, sub.cases, sub.nontrivial, sub.outcomes
+        for sig, vs in sub.violations.items():
+            if "request-failed" in sig or "neighbour-failed" in sig or "exception" in sig or "too-large" in sig:  # an over-long packet is refused as a whole by a real controller
+                for v in vs:
+                    rep.violation("packed-size/" + sig, v.msg, {"cfg": ["P5m", pers, conn], "op": "both", "list": [], "kind": "packed"})
+                rep.viol_counts["packed-size/" + sig] = sub.viol_counts[sig]
+        return rep
     cfg = ("P2", pers, conn)
     proj, ctl, t, w, d, r = open_world("P2", pers, conn, seed % 4, choices=(), reduced=True)
     if r != ("ok", True):
@@ -369,6 +428,15 @@ def replay(r):
     proj, ctl, t, w, d, o = open_world(cfg[0], cfg[1], cfg[2], 0, choices=(), reduced=True)
     fill_image(proj, 0)
     alone = prepare(proj, ctl, d, r["op"])
+    if r["kind"] in ("wide", "packed"):
+        w.__exit__()
+        rep = Report()
+        for sh in shards("quick", 0):
+            if sh[0] == r["kind"] and sh[1] == cfg[1]:
+                rep.merge(run_shard(sh, "quick", 0))
+        for s_, vs in rep.violations.items():
+            print("  violates:", s_, "::", vs[0].msg[:300])
+        return not rep.violations
     if r["kind"] == "refusals":
         rep = Report()
         run_refusals(rep, tuple(cfg), proj, ctl, d, r["op"], alone)
